@@ -52,9 +52,13 @@ def _reified_markers(epidata: 'list') -> 'tuple':
     requires(wf_markers(epidata))
     ensures(result == (last_push(epidata), pops_of(epidata), role_epis_of(epidata), other_epis_of(epidata)))
     ensures(result[0] is None or is_inst(result[0], 'Push'), label='push-kind')
+    ensures(is_list(result[1]) and is_list(result[2]) and is_list(result[3])
+            and wf_markers(result[1]) and wf_markers(result[2]) and wf_markers(result[3]), label='marker-lists')
     invariant(0, lambda: push == last_push(epidata[:_i]) and pops == pops_of(epidata[:_i])
               and role_epis == role_epis_of(epidata[:_i]) and other_epis == other_epis_of(epidata[:_i]))
     invariant(0, lambda: push is None or is_inst(push, 'Push'))
+    invariant(0, lambda: is_list(pops) and is_list(role_epis) and is_list(other_epis)
+              and wf_markers(pops) and wf_markers(role_epis) and wf_markers(other_epis))
 
 
 @spec
@@ -86,6 +90,8 @@ def _edge_markers(epidata: 'list') -> 'tuple':
 def _attr_markers(epidata: 'list') -> 'tuple':
     requires(wf_markers(epidata))
     ensures(result == (role_epis_of(epidata), other_epis_of(epidata) + pops_of(epidata)))
+    ensures(is_list(result[0]) and is_list(result[1]) and wf_markers(result[0]) and wf_markers(result[1]),
+            label='marker-lists')
 
 
 # ---- canonicalize_roles on trees (C13, tree clause) ------------------------------------------------
@@ -170,3 +176,31 @@ def without_role_snoc(ts: 'list', x: 'val', role: 'val'):
     """one unfolding of without_role"""
     ensures(without_role(ts + [x], role)
             == (without_role(ts, role) if x[1] == role else without_role(ts, role) + [x]))
+
+
+# ---- reify_attributes, functionally (C12): no attribute is left ---------------------------------------------
+
+@contract('penman.transform:reify_attributes@functional', bounded=True,
+          why='99 of its 101 obligations discharge (tools/dbg.py); two invariant steps on the path that reifies an '
+              'attribute (sources of processed triples stay sources; marker lists stay marker lists after pop + two '
+              'stores) are left unknown by all three solvers, so the contract is executed natively, not claimed as proved')
+def reify_attributes_f(g: 'Graph') -> 'Graph':
+    requires(wf_triples(g.triples))
+    requires(forall_idx(g.triples, lambda k, t: t[1].startswith(':')))          # (roles of a Graph carry their colon)
+    requires(forall_idx(g.triples, lambda k, t: epis_wf(markers_of(g.epidata, t))))   # marker lists (T10)
+    # every non-instance triple of the result points at a variable of the result: no attribute is left
+    ensures(forall_idx(result.triples, lambda j, t: t[1] == ':instance'
+                       or is_var(result.triples, result._top, t[2])), label='no-attribute-left')
+    ensures(implies(g._top is not None, result._top == g._top), label='top')
+    ensures(g.triples == old(g).triples, label='argument-kept')
+    # outer loop
+    invariant(0, lambda: is_list(new_triples) and forall_idx(new_triples, lambda j, t: is_tuple(t) and len(t) == 3
+                                                             and is_str(t[1]) and t[1].startswith(':')))
+    invariant(0, lambda: forall_idx(new_triples, lambda j, t: t[1] == ':instance' or t[2] in variables))
+    invariant(0, lambda: subset(variables, set_where(lambda x: is_var(g.triples, g._top, x) or is_source(new_triples, x))))
+    invariant(0, lambda: subset(set_where(lambda x: is_source(g.triples[:_i], x)),
+                                set_where(lambda x: is_source(new_triples, x))))
+    invariant(0, lambda: g.triples == old(g).triples and g._top == old(g)._top and is_int(i))
+    invariant(0, lambda: forall_idx(g.triples, lambda k, t: epis_wf(markers_of(new_epidata, t))))
+    # inner loop (the search for a fresh name)
+    invariant(1, lambda: is_str(var) and is_int(i))
